@@ -66,3 +66,6 @@ struct SharedTaskDescription {
     submit_dir: PathBuf,
     stream_path: Option<PathBuf>,
 }
+
+#[cfg(feature = "verif")]
+pub use program::verif as verif_program;
